@@ -29,7 +29,7 @@ class Contract:
 
     def __init__(self, name, target, setup, requires=None, ensures=None, raises=None, loops=None, callees=None,
                  canaries=(), dropped=(), decorators=None, generator=None, on_exit=None, note="", max_paths=400,
-                 class_models=None, timeout_ms=None, concretize=None, hints=None, stop_after=None, stop_before=None):
+                 class_models=None, timeout_ms=None, concretize=None, hints=None, stop_after=None, stop_before=None, rounds=None):
         self.name, self.target, self.setup = name, target, setup
         self.requires = requires or (lambda ctx, st: [])
         self.ensures = ensures or (lambda ctx, st, ret: [])
@@ -46,6 +46,7 @@ class Contract:
         self.timeout_ms = timeout_ms
         self.concretize = concretize
         self.stop_before = stop_before
+        self.rounds = rounds          # instantiation rounds for this contract (default: solve.ROUNDS)
         self.stop_after = stop_after    # text of the last statement of the verified prefix (ensures then receives the locals)
         self.hints = hints      # (ctx, st, skolem constants) -> terms to mention (guides hypothesis instantiation; adds no facts)
 
@@ -160,6 +161,10 @@ def run_contract(con, timeout_ms=10000, keep_models=True, verbose=False):
         res.functions.update(ip.inlined)
         # discharge this path's obligations
         ctx.solving = True
+        if con.rounds:
+            solve.ROUNDS_OVERRIDE = con.rounds
+        else:
+            solve.ROUNDS_OVERRIDE = None
         for ob in list(ctx.obligations):
             if con.hints is not None and outcome != "unsupported":
                 try:
